@@ -69,7 +69,7 @@ func newState(data []byte, strict bool) *state {
 func (s *state) scanKeyValue(data []byte, el *fix.KeyValue) error {
 	q := bytes.Join([][]byte{[]byte(el.Key), {'='}}, nil)
 	var keyIndex int
-	if bytes.Equal(data[:len(q)], q) {
+	if bytes.HasPrefix(data, q) {
 		keyIndex = 0
 	} else {
 		ks := bytes.Join([][]byte{fix.Delimiter, []byte(el.Key), {'='}}, nil)
@@ -141,8 +141,14 @@ func (s *state) unmarshal(data []byte, fixItem fix.Item) error {
 		}
 
 		startFirstFieldTag := bytes.Index(data[startNoTag:], fix.Delimiter)
+		if startFirstFieldTag == -1 {
+			return fmt.Errorf("no elements found after the group counter %s", noTag)
+		}
 		arrayString := data[startNoTag+startFirstFieldTag:]
 		endFirstFieldTag := bytes.Index(arrayString, []byte{'='})
+		if endFirstFieldTag == -1 {
+			return fmt.Errorf("no fields found after the group counter %s", noTag)
+		}
 
 		firstTag := arrayString[:endFirstFieldTag+1]
 		arrayItems := splitGroup(arrayString, firstTag)
